@@ -722,6 +722,9 @@ func (w *WAL) sync(fsync bool) error {
 }
 
 func (w *WAL) Sync() error {
+	// it may be called outside the raft loop (snapshot goroutine) while Save is cutting the segment
+	w.mu.Lock()
+	defer w.mu.Unlock()
 	return w.sync(true)
 }
 
